@@ -86,6 +86,8 @@ def check(ctx):
     # the window sums stored with the result are (sum w)^2 and sum w^2 of the window of that very length, on both analysis paths
     from ..dispatch import check_assembly, check_single_fields
     check_assembly(ctx, rule="R5-stored-window-sums", only=("S12", "S2"))
+    # the statistic that is calibrated for bin j is the kernel's output at that bin's own frequency and length
+    check_assembly(ctx, rule="R7-statistic-of-the-bin", only=("XX", "YY", "XY"))
     check_single_fields(ctx, rule="R5-stored-window-sums", only=("S12", "S2"))
     # the sums S1, S2 that calibrate a density must be those of the window requested now (memoised windows keyed completely)
     from ..dispatch import check_cache_keys
